@@ -41,8 +41,11 @@ def ndigitsAux : Nat → Nat → Nat → Nat
   | 0, _, acc => acc
   | f + 1, n, acc => if n < 10 then acc else ndigitsAux f (n / 10) (acc + 1)
 
-/-- `len(str(n))` (so `ndigits 0 = 1`); fuel covers 2000 digits -/
-def ndigits (n : Nat) : Nat := ndigitsAux 2000 n 1
+/-- `len(str(n))` (so `ndigits 0 = 1`).  The fuel is `n` itself: a number has at most `n + 1` digits, so
+the recursion never runs out (`Lemmas/DecBounds.lean: ndigits_eq`, `ndigits n = 1 + ⌊log₁₀ n⌋` for every
+`n`; until the wave-1 extension the fuel was the constant 2000, which made `fix` wrong beyond
+2001-digit coefficients).  The recursion stops at `n < 10`, so only `ndigits n` steps are ever unfolded. -/
+def ndigits (n : Nat) : Nat := ndigitsAux n n 1
 
 /-- drop the last `k` decimal digits of `c`, ROUND_HALF_EVEN (`_round_half_even`) -/
 def roundHalfEven (c k : Nat) : Nat :=
